@@ -55,6 +55,7 @@ type c05Spec struct {
 	BackendChunk  string
 	Pace          string // none, yield, gap
 	SlowReader    string // none, client, backend
+	SecondPace    string // "", client, backend: that sender trickles (150 ms between twentieths of its stream)
 	PauseSide     string // "", client, backend: that sender stops for Pause once PauseAt bytes are out (0 = before its first byte)
 	PauseAt       int
 	Pause         time.Duration
@@ -71,6 +72,13 @@ type c05SideResult struct {
 // sendStream writes n bytes of the stream (seed) with the given chunking and pacing.
 func sendStream(c net.Conn, seed uint64, n int, chunk, pace string, rnd *rand.Rand, abortAfter int) error {
 	return sendStreamP(c, seed, n, chunk, pace, rnd, abortAfter, -1, 0)
+}
+
+func (sp *c05Spec) paceOf(side string) string {
+	if sp.SecondPace == side {
+		return "slow"
+	}
+	return sp.Pace
 }
 
 func (sp *c05Spec) pauseOf(side string) (int, time.Duration) {
@@ -104,6 +112,8 @@ func sendStreamP(c net.Conn, seed uint64, n int, chunk, pace string, rnd *rand.R
 			k = len(buf)
 		case "16k-edge":
 			k = 16384 - 1 + rnd.Intn(3)
+		case "twentieth":
+			k = n/20 + 1
 		}
 		if k > n-sent {
 			k = n - sent
@@ -124,6 +134,8 @@ func sendStreamP(c net.Conn, seed uint64, n int, chunk, pace string, rnd *rand.R
 			return nil
 		}
 		switch pace {
+		case "slow":
+			time.Sleep(150 * time.Millisecond)
 		case "yield":
 			runtime.Gosched()
 		case "gap":
@@ -181,7 +193,7 @@ func halfClose(c net.Conn) {
 }
 
 func c05(r *ev.Run) {
-	r.Rule("connections through the real TCP proxy to a scripted backend: stream lengths {0, 1, 16383, 16384, 16385, 3x16384+7, hundreds of KiB, several MiB (up to 64 MiB in thorough)} in both directions, chunkings {1 byte, small PRNG, 16 KiB edges, 64 KiB}, pacing {none, yields, 1 ms gaps}, slow reader on either side (back-pressure), close orders {client half-closes first, backend first, simultaneous, abrupt close by either side mid-stream}, 1-128 concurrent connections; a phase where one sender pauses for 1 s (connect timeout 300 ms, idle timeout 30 s) before or in the middle of its stream; each receiver recomputes the sender's PRNG stream; distinct = distinct (length classes, close order, chunking, slow side) tuples")
+	r.Rule("connections through the real TCP proxy to a scripted backend: stream lengths {0, 1, 16383, 16384, 16385, 3x16384+7, hundreds of KiB, several MiB (up to 64 MiB in thorough)} in both directions, chunkings {1 byte, small PRNG, 16 KiB edges, 64 KiB}, pacing {none, yields, 1 ms gaps}, slow reader on either side (back-pressure), close orders {client half-closes first, backend first, simultaneous, abrupt close by either side mid-stream}, 1-128 concurrent connections; a phase where one sender pauses for 1 s (connect timeout 300 ms, idle timeout 30 s) before or in the middle of its stream; a phase with idle timeout 1 s where the side that sends second trickles for 3 s after the first has finished; each receiver recomputes the sender's PRNG stream; distinct = distinct (length classes, close order, chunking, slow side) tuples")
 	r.Assume("the backend learns which connection it serves from an 8-byte id the client sends first (relayed like any other bytes)")
 	for _, race := range []bool{false, true} {
 		s, err := startSUT(r, race, 0, 0)
@@ -203,6 +215,7 @@ func c05(r *ev.Run) {
 				np = 200
 			}
 			c05Run(r, s, r.Seed*11+5, np, race, true)
+			c05Run(r, s, r.Seed*13+7, np/2, race, false, true)
 		}
 		if race {
 			for _, rr := range raceReports(s, []string{"proc/tcp/proc.go"}) {
@@ -214,12 +227,14 @@ func c05(r *ev.Run) {
 	}
 	r.Require("connections_judged", 200)
 	r.Require("connections_with_a_pausing_peer", 20)
+	r.Require("connections_with_a_trickling_second_direction", 8)
 	r.Require("bytes_verified", 40<<20)
 }
 
 // paused = the "pausing peers" phase: connect timeout 300 ms, idle timeout 30 s, and one sender per connection stops for 1 s (longer
 // than the connect timeout, far shorter than the idle timeout) before its first byte or in the middle of its stream.
-func c05Run(r *ev.Run, s *sutc.SUT, seed int64, nconns int, race bool, paused bool) {
+func c05Run(r *ev.Run, s *sutc.SUT, seed int64, nconns int, race bool, paused bool, slowOpt ...bool) {
+	slow := len(slowOpt) > 0 && slowOpt[0]
 	rnd := rand.New(rand.NewSource(seed))
 	var specs sync.Map
 	backend, err := tcpsim.NewBackend(func(b *tcpsim.Backend, c net.Conn) {
@@ -240,12 +255,12 @@ func c05Run(r *ev.Run, s *sutc.SUT, seed int64, nconns int, race bool, paused bo
 		switch sp.Order {
 		case "client-first":
 			res = recvStream(c, sp.ID*2, sp.ClientLen, sp.SlowReader == "backend")
-			if err := sendStreamP(c, sp.ID*2+1, sp.BackendLen, sp.BackendChunk, sp.Pace, brnd, 0, bpAt, bp); err != nil && res.Problem == "" {
+			if err := sendStreamP(c, sp.ID*2+1, sp.BackendLen, sp.BackendChunk, sp.paceOf("backend"), brnd, 0, bpAt, bp); err != nil && res.Problem == "" {
 				res.Problem = "backend could not send after the client finished (opposite direction must keep flowing): " + err.Error()
 			}
 			halfClose(c)
 		case "backend-first":
-			if err := sendStreamP(c, sp.ID*2+1, sp.BackendLen, sp.BackendChunk, sp.Pace, brnd, 0, bpAt, bp); err != nil {
+			if err := sendStreamP(c, sp.ID*2+1, sp.BackendLen, sp.BackendChunk, sp.paceOf("backend"), brnd, 0, bpAt, bp); err != nil {
 				res.Problem = "backend send: " + err.Error()
 			}
 			halfClose(c)
@@ -256,7 +271,7 @@ func c05Run(r *ev.Run, s *sutc.SUT, seed int64, nconns int, race bool, paused bo
 		case "simultaneous", "client-abort":
 			done := make(chan error, 1)
 			go func() {
-				err := sendStreamP(c, sp.ID*2+1, sp.BackendLen, sp.BackendChunk, sp.Pace, brnd, 0, bpAt, bp)
+				err := sendStreamP(c, sp.ID*2+1, sp.BackendLen, sp.BackendChunk, sp.paceOf("backend"), brnd, 0, bpAt, bp)
 				halfClose(c)
 				done <- err
 			}()
@@ -283,6 +298,11 @@ func c05Run(r *ev.Run, s *sutc.SUT, seed int64, nconns int, race bool, paused bo
 	opts := TCPOpts{}
 	if paused {
 		opts = TCPOpts{ConnTimeout: 300 * time.Millisecond, IdleTimeout: 30 * time.Second}
+	}
+	if slow {
+		// idle timeout 1 s; one direction finishes (or stays silent) while the other keeps trickling for 3 s, never pausing for more
+		// than 150 ms: the idle timeout of the finished direction must not touch the one still flowing
+		opts = TCPOpts{IdleTimeout: time.Second}
 	}
 	svc, err := startTCPSvc(s, []sutc.Host{{Addr: backend.Addr}}, opts)
 	if err != nil {
@@ -332,6 +352,17 @@ func c05Run(r *ev.Run, s *sutc.SUT, seed int64, nconns int, race bool, paused bo
 					sp.PauseAt = 1 + rnd.Intn(l-1)
 				}
 			}
+			if slow {
+				sp.Order = []string{"client-first", "backend-first"}[rnd.Intn(2)]
+				sp.ClientLen, sp.BackendLen = 2000+rnd.Intn(60000), 2000+rnd.Intn(60000)
+				sp.SlowReader, sp.Pace = "none", "none"
+				// the side that sends second trickles
+				if sp.Order == "client-first" {
+					sp.BackendChunk, sp.SecondPace = "twentieth", "backend"
+				} else {
+					sp.ClientChunk, sp.SecondPace = "twentieth", "client"
+				}
+			}
 			if sp.ClientLen+sp.BackendLen > 4<<20 {
 				sp.ClientChunk, sp.BackendChunk, sp.Pace = "64k", "64k", "none"
 			}
@@ -360,7 +391,7 @@ func c05Run(r *ev.Run, s *sutc.SUT, seed int64, nconns int, race bool, paused bo
 				var cres c05SideResult
 				switch sp.Order {
 				case "client-first":
-					if err := sendStreamP(c, sp.ID*2, sp.ClientLen, sp.ClientChunk, sp.Pace, crnd, 0, cpAt, cp); err != nil {
+					if err := sendStreamP(c, sp.ID*2, sp.ClientLen, sp.ClientChunk, sp.paceOf("client"), crnd, 0, cpAt, cp); err != nil {
 						cres.Problem = "client send: " + err.Error()
 					}
 					halfClose(c)
@@ -370,14 +401,14 @@ func c05Run(r *ev.Run, s *sutc.SUT, seed int64, nconns int, race bool, paused bo
 					}
 				case "backend-first":
 					cres = recvStream(c, sp.ID*2+1, sp.BackendLen, sp.SlowReader == "client")
-					if err := sendStreamP(c, sp.ID*2, sp.ClientLen, sp.ClientChunk, sp.Pace, crnd, 0, cpAt, cp); err != nil && cres.Problem == "" {
+					if err := sendStreamP(c, sp.ID*2, sp.ClientLen, sp.ClientChunk, sp.paceOf("client"), crnd, 0, cpAt, cp); err != nil && cres.Problem == "" {
 						cres.Problem = "client could not send after the backend finished (opposite direction must keep flowing): " + err.Error()
 					}
 					halfClose(c)
 				case "simultaneous", "backend-abort":
 					done := make(chan error, 1)
 					go func() {
-						err := sendStreamP(c, sp.ID*2, sp.ClientLen, sp.ClientChunk, sp.Pace, crnd, 0, cpAt, cp)
+						err := sendStreamP(c, sp.ID*2, sp.ClientLen, sp.ClientChunk, sp.paceOf("client"), crnd, 0, cpAt, cp)
 						halfClose(c)
 						done <- err
 					}()
@@ -401,6 +432,10 @@ func c05Run(r *ev.Run, s *sutc.SUT, seed int64, nconns int, race bool, paused bo
 					bres.Problem = "backend side never finished"
 				}
 				class := fmt.Sprintf("%s/c%s/b%s/%s/slow-%s", sp.Order, lenClass(sp.ClientLen), lenClass(sp.BackendLen), sp.ClientChunk, sp.SlowReader)
+				if sp.SecondPace != "" {
+					class += "/trickling-" + sp.SecondPace
+					r.Count("connections_with_a_trickling_second_direction", 1)
+				}
 				if sp.PauseSide != "" {
 					class += fmt.Sprintf("/pause-%s-at-%s", sp.PauseSide, map[bool]string{true: "start", false: "middle"}[sp.PauseAt == 0])
 					r.Count("connections_with_a_pausing_peer", 1)
